@@ -840,14 +840,27 @@ impl<TokenIter: Iterator<Item = Result<Token>>> Parser<TokenIter> {
             Datum {
                 data: DatumBody::Pair(pair),
                 ..
-            } => ParameterFormalsBody::Pair(Box::new(pair.map_ok(&mut |datum| {
-                let sub_location = datum.location;
-                Ok(
-                    ParameterFormalsBody::Name(Self::transform_identifier(datum)?)
-                        .locate(sub_location),
-                )
-            })?))
-            .locate(location),
+            } => {
+                // every parameter is an identifier: a nested list such as ((a) b) is not a parameter list
+                // (map_ok below would descend into it and build a formal that has no name)
+                if let Some(nested) = pair
+                    .iter()
+                    .find(|datum| matches!(datum.data, DatumBody::Pair(_)))
+                {
+                    return located_error!(
+                        SyntaxError::ExpectSomething("identifier".to_string(), nested.to_string()),
+                        nested.location
+                    );
+                }
+                ParameterFormalsBody::Pair(Box::new(pair.map_ok(&mut |datum| {
+                    let sub_location = datum.location;
+                    Ok(
+                        ParameterFormalsBody::Name(Self::transform_identifier(datum)?)
+                            .locate(sub_location),
+                    )
+                })?))
+                .locate(location)
+            }
             single => {
                 ParameterFormalsBody::Name(Self::transform_identifier(single)?).locate(location)
             }
